@@ -9,6 +9,7 @@ import (
 	"os"
 	"path/filepath"
 	"strings"
+	"sync"
 	"syscall"
 
 	"github.com/dave/jennifer/jen"
@@ -229,6 +230,28 @@ func snap(path string) fsSnap {
 	return s
 }
 
+// fullDev is a private character device node with the numbers of /dev/full (1,7), made inside this run's
+// scratch directory: Save is never pointed at a system path.
+var (
+	fullDev   string
+	fullDevMu sync.Mutex
+)
+
+func ensureFullDev() {
+	fullDevMu.Lock()
+	defer fullDevMu.Unlock()
+	if fullDev == "" {
+		return
+	}
+	if st, err := os.Lstat(fullDev); err == nil && st.Mode()&os.ModeCharDevice != 0 {
+		return
+	}
+	os.RemoveAll(fullDev)
+	if err := syscall.Mknod(fullDev, syscall.S_IFCHR|0o666, 1<<8|7); err != nil {
+		fullDev = ""
+	}
+}
+
 func c10Case(r *mon.Run, t *c10Tree, c mon.Case, dir string) {
 	viol := func(class, format string, a ...interface{}) {
 		r.Violate(class, c, "%s\ntree: %s", fmt.Sprintf(format, a...), t.desc)
@@ -337,10 +360,22 @@ func c10Case(r *mon.Run, t *c10Tree, c mon.Case, dir string) {
 		{"parent missing", func() string { return filepath.Join(fresh("nodir"), "x.go") }, "fail"},
 		{"path component is a file", func() string { p := fresh("file"); os.WriteFile(p, []byte("x"), 0o644); return filepath.Join(p, "x.go") }, "fail"},
 		{"name too long", func() string { return filepath.Join(dir, strings.Repeat("n", 300)+".go") }, "fail"},
-		{"/dev/full (ENOSPC on write)", func() string { return "/dev/full" }, "fail"},
+		{"full device (ENOSPC on write)", func() string { return fullDev }, "fail"},
 	}
 	for _, tg := range targets {
+		if tg.name == "full device (ENOSPC on write)" && fullDev == "" {
+			r.Count("save.full device unavailable", 1)
+			continue
+		}
 		path := tg.setup()
+		if path == fullDev {
+			// a change under test may do anything to the path it is given (rename a temporary file over it …):
+			// the node is private to this run and is re-made whenever it is no longer the device
+			ensureFullDev()
+			if fullDev == "" {
+				continue
+			}
+		}
 		before := snap(path)
 		var parentBefore fsSnap
 		if tg.name == "target is a directory" {
@@ -359,7 +394,7 @@ func c10Case(r *mon.Run, t *c10Tree, c mon.Case, dir string) {
 			if err == nil {
 				viol("save-error-swallowed", "Save (%s) returned nil although rendering fails (%s)", tg.name, mon.Trunc(expErr.Error(), 80))
 			}
-			if path != "/dev/full" && after != before {
+			if path != fullDev && after != before {
 				viol("save-clobbers-target", "Save (%s) changed the target although rendering failed: before %+v after %+v", tg.name, before, after)
 			}
 		case tg.must == "ok":
@@ -372,8 +407,8 @@ func c10Case(r *mon.Run, t *c10Tree, c mon.Case, dir string) {
 				viol("saved-content-differs", "Save (%s) returned nil but the file holds %d bytes that differ from the rendered output (%d bytes), first difference at %d", tg.name, len(got), exp.Len(), firstDiff(got, exp.Bytes()))
 			}
 		default:
-			if err == nil && path == "/dev/full" {
-				viol("save-error-swallowed", "Save to /dev/full returned nil although the write cannot succeed")
+			if err == nil && path == fullDev {
+				viol("save-error-swallowed", "Save to a full device (a private copy of /dev/full) returned nil although the write cannot succeed")
 			} else if err == nil {
 				viol("save-error-swallowed", "Save (%s) returned nil", tg.name)
 			}
@@ -459,13 +494,27 @@ func c10Trees(r *mon.Run) []func() *c10Tree {
 }
 
 func runC10(r *mon.Run) {
-	r.SetRule("fault matrix, enumerated completely for every tree: cause in {invalid composition -> formatter error; render error injected at node i (probe; first, last, middle, one seeded); writer error on write k = 1..W reporting 0, half or all bytes written; target is a directory; parent missing; path component is a file; name too long; /dev/full (ENOSPC on write); existing longer / empty / no target file} x entry point in {File.Render, File.Save, Statement.Render, Statement.RenderWithFile, Group.Render, Group.RenderWithFile}; trees: real programs (every third one damaged so that the formatter rejects it) and random grammar-biased compositions. non-trivial = every tree; distinct by tree")
+	r.SetRule("fault matrix, enumerated completely for every tree: cause in {invalid composition -> formatter error; render error injected at node i (probe; first, last, middle, one seeded); writer error on write k = 1..W reporting 0, half or all bytes written; target is a directory; parent missing; path component is a file; name too long; a full device (private node with the numbers of /dev/full: ENOSPC on write); existing longer / empty / no target file} x entry point in {File.Render, File.Save, Statement.Render, Statement.RenderWithFile, Group.Render, Group.RenderWithFile}; trees: real programs (every third one damaged so that the formatter rejects it) and random grammar-biased compositions. non-trivial = every tree; distinct by tree")
 	r.Assume("running as root, permission bits cannot make a directory unwritable; that cause is realised by the missing-parent / component-is-a-file / directory / name-too-long / /dev/full targets")
 	r.SetExhaustive(false)
 	dir := filepath.Join(mon.VerifDir, "bin", fmt.Sprintf("c10-%d", os.Getpid()))
 	os.MkdirAll(dir, 0o755)
 	defer os.RemoveAll(dir)
 	c10NegControls(r, dir)
+	fullDev = filepath.Join(dir, "full-device")
+	ensureFullDev()
+	if fullDev != "" {
+		// it must behave like /dev/full, or it proves nothing
+		if fh, err := os.OpenFile(fullDev, os.O_WRONLY, 0); err != nil {
+			fullDev = ""
+		} else {
+			if _, werr := fh.Write([]byte("x")); werr == nil {
+				fullDev = ""
+			}
+			fh.Close()
+		}
+	}
+	r.Put("full_device_available", fullDev != "")
 	mk := c10Trees(r)
 	mon.Parallel(len(mk), func(i int) {
 		t := mk[i]()
@@ -483,6 +532,8 @@ func replayC10(r *mon.Run, c mon.Case) {
 	dir := filepath.Join(mon.VerifDir, "bin", fmt.Sprintf("c10-%d", os.Getpid()))
 	os.MkdirAll(dir, 0o755)
 	defer os.RemoveAll(dir)
+	fullDev = filepath.Join(dir, "full-device")
+	ensureFullDev()
 	mk := c10Trees(r)
 	if int(c.Index) < len(mk) {
 		if t := mk[c.Index](); t != nil {
